@@ -58,11 +58,19 @@ void *janet_abstract(const JanetAbstractType *atype, size_t size) {
  * Threaded abstracts
  */
 
+#ifdef JANET_VERIF
+/* Verification hook H4: process-wide count of live threaded abstracts. */
+volatile JanetAtomicInt janet_verif_live_threaded;
+#endif
+
 void *janet_abstract_begin_threaded(const JanetAbstractType *atype, size_t size) {
     JanetAbstractHead *header = janet_malloc(sizeof(JanetAbstractHead) + size);
     if (NULL == header) {
         JANET_OUT_OF_MEMORY;
     }
+#ifdef JANET_VERIF
+    janet_atomic_inc(&janet_verif_live_threaded);
+#endif
     janet_vm.next_collection += size + sizeof(JanetAbstractHead);
     header->gc.flags = JANET_MEMORY_THREADED_ABSTRACT;
     header->gc.data.next = NULL; /* Clear memory for address sanitizers */
